@@ -17,28 +17,9 @@ def UseReq.tasks (r : UseReq) : List Nat := r.injKwargs.map (fun x => x.2.1) ++ 
 /-- the request only mentions existing tasks -/
 def UseReq.WF (st : St) (r : UseReq) : Prop := ∀ t ∈ r.tasks, t < st.next
 
-theorem sameSig_iff (st : St) (r r' : UseReq) : sameSig st r r' = true ↔ r.sig st = r'.sig st := by
-  simp only [sameSig, UseReq.sig, Bool.and_eq_true, decide_eq_true_iff, Prod.mk.injEq]
-  constructor
-  · rintro ⟨⟨⟨⟨a, b⟩, c⟩, d⟩, e⟩
-    exact ⟨a, of_decide_eq_true b, of_decide_eq_true c, d, e⟩
-  · rintro ⟨a, b, c, d, e⟩
-    exact ⟨⟨⟨⟨a, decide_eq_true b⟩, decide_eq_true c⟩, d⟩, e⟩
-
 theorem injected_sub (r : UseReq) : ∀ t ∈ r.injected, t ∈ r.tasks := by
   intro t ht
   simpa [UseReq.injected, UseReq.tasks, List.mem_eraseDups] using ht
-
-theorem sig_ext {st st' : St} (h : Ext st st') {r : UseReq} (hr : r.WF st) : r.sig st' = r.sig st := by
-  have hn : ∀ t ∈ r.tasks, st'.nameOf t = st.nameOf t := fun t ht => nameOf_ext h t (hr t ht)
-  simp only [UseReq.sig, Prod.mk.injEq, true_and, and_true]
-  constructor
-  · apply List.map_congr_left
-    intro x hx
-    rw [hn x.1 (by simp [UseReq.tasks]; right; exact ⟨x.2, by simpa using hx⟩)]
-  · apply List.map_congr_left
-    intro x hx
-    rw [hn x.2.1 (by simp [UseReq.tasks]; left; exact ⟨x.1, x.2.2, by simpa using hx⟩)]
 
 theorem useName_ext {st st' : St} (h : Ext st st') {r : UseReq} (hr : r.WF st) : useName st' r = useName st r := by
   have hn : ∀ t ∈ r.injected, st'.nameOf t = st.nameOf t :=
@@ -46,31 +27,35 @@ theorem useName_ext {st st' : St} (h : Ext st st') {r : UseReq} (hr : r.WF st) :
   simp only [useName]
   rw [List.map_congr_left hn]
 
-theorem WF_ext {st st' : St} (h : Ext st st') {r : UseReq} (hr : r.WF st) : r.WF st' :=
-  fun t ht => Nat.lt_of_lt_of_le (hr t ht) h.next_le
+theorem findUse_some {cache : List (String × Nat × UseReq)} {name : String} {r : UseReq} {t : Nat}
+    (h : findUse cache name r = some t) : (name, t, r) ∈ cache := by
+  simp only [findUse, Option.map_eq_some_iff] at h
+  obtain ⟨e, he, rfl⟩ := h
+  have hm := List.mem_of_find?_eq_some he
+  have hp := List.find?_some he
+  simp only [Bool.and_eq_true, decide_eq_true_eq] at hp
+  obtain ⟨n, t', r'⟩ := e
+  simp only at hp; obtain ⟨rfl, rfl⟩ := hp
+  exact hm
 
-/-- invariant: cached requests mention existing tasks only -/
-def CacheWF (st : St) : Prop := ∀ n t r, lookup st.useCache n = some (t, r) → r.WF st ∧ t < st.next
+theorem findUse_append {cache l : List (String × Nat × UseReq)} {name : String} {r : UseReq} {t : Nat}
+    (h : findUse cache name r = some t) : findUse (cache ++ l) name r = some t := by
+  simp only [findUse, Option.map_eq_some_iff] at h ⊢
+  obtain ⟨e, he, rfl⟩ := h
+  exact ⟨e, by rw [List.find?_append, he]; rfl, rfl⟩
 
 /-- one call of `Use.get_task()` -/
-theorem getTask_spec {st : St} (hg : Good st) (hc : CacheWF st) (r : UseReq) (hr : r.WF st) :
+theorem getTask_spec {st : St} (hg : Good st) (r : UseReq) :
     let out := getTask .fixed st r
-    Good out.2 ∧ CacheWF out.2 ∧ Ext st out.2 ∧
-    (∀ t, out.1 = .ok t → ∃ r', lookup out.2.behaviour t = some (.use r') ∧ r.sig out.2 = r'.sig out.2 ∧
-        lookup out.2.useCache (useName st r) = some (t, r') ∧ t < out.2.next) := by
+    Good out.2 ∧ Ext st out.2 ∧
+    (∃ t, out.1 = .ok t ∧ lookup out.2.behaviour t = some (.use r) ∧
+        findUse out.2.useCache (useName st r) r = some t ∧ t < out.2.next) := by
   simp only [getTask]
-  cases hl : lookup st.useCache (useName st r) with
-  | some x =>
-    obtain ⟨t, r'⟩ := x
+  cases hl : findUse st.useCache (useName st r) r with
+  | some t =>
     simp only
-    by_cases hs : sameSig st r r' = true
-    · simp only [hs, if_true]
-      refine ⟨hg, hc, Ext.refl st, ?_⟩
-      intro t' ht'; injection ht' with ht'; subst ht'
-      exact ⟨r', hg.cache_beh _ _ _ hl, (sameSig_iff st r r').1 hs, hl, (hc _ _ _ hl).2⟩
-    · simp only [hs]
-      refine ⟨hg, hc, Ext.refl st, ?_⟩
-      intro t' ht'; cases ht'
+    have hm := findUse_some hl
+    exact ⟨hg, Ext.refl st, t, rfl, hg.cache_beh _ hm, hl, hg.cache_lt _ hm⟩
   | none =>
     simp only
     obtain ⟨h1, h2, h3, h4, h5, h6, h7, h8⟩ := newTask_spec hg (useName st r) (.use r)
@@ -78,14 +63,10 @@ theorem getTask_spec {st : St} (hg : Good st) (hc : CacheWF st) (r : UseReq) (hr
     obtain ⟨t, st1⟩ := nt
     simp only at h1 h2 h3 h4 h5 h6 h7 h8 ⊢
     subst h1
-    have hext : Ext st { st1 with useCache := st1.useCache ++ [(useName st r, st.next, r)] } := by
-      refine ⟨by simp [h2], h5, h6, ?_⟩
-      intro n x hx
-      simp only [lookup_append, h7, hx]
+    have hnt' := congrArg Prod.snd hnt
+    simp only [St.newTask] at hnt'
     have hnames1 : ∀ p ∈ st1.names, p.1 < st1.next := by
       intro p hp
-      have hnt' := congrArg Prod.snd hnt
-      simp only [St.newTask] at hnt'
       rw [← hnt'] at hp
       simp only [List.mem_append, List.mem_singleton] at hp
       rcases hp with hp | hp
@@ -93,112 +74,69 @@ theorem getTask_spec {st : St} (hg : Good st) (hc : CacheWF st) (r : UseReq) (hr
       · rw [hp]; simp; omega
     have hbeh1 : ∀ p ∈ st1.behaviour, p.1 < st1.next := by
       intro p hp
-      have hnt' := congrArg Prod.snd hnt
-      simp only [St.newTask] at hnt'
       rw [← hnt'] at hp
       simp only [List.mem_append, List.mem_singleton] at hp
       rcases hp with hp | hp
       · have := hg.beh_lt p hp; omega
       · rw [hp]; simp; omega
-    have hext1 : Ext st st1 := ⟨by omega, h5, h6, fun n x hx => by rw [h7]; exact hx⟩
-    refine ⟨⟨hnames1, hbeh1, ?_, ?_⟩, ?_, hext, ?_⟩
-    · -- cache_beh
-      intro n t' r'' hlk
-      simp only [lookup_append, h7] at hlk
-      cases hl2 : lookup st.useCache n with
-      | some x =>
-        simp only [hl2] at hlk; injection hlk with hlk; subst hlk
-        have := hg.cache_beh _ _ _ hl2
-        rw [h6 t' (hc _ _ _ hl2).2]; exact this
-      | none =>
-        simp only [hl2] at hlk
-        split at hlk
-        · injection hlk with hlk; injection hlk with e1 e2; subst e1; subst e2; exact h4
-        · cases hlk
-    · -- cache_name
-      intro n t' r'' hlk
-      simp only [lookup_append, h7] at hlk
-      cases hl2 : lookup st.useCache n with
-      | some x =>
-        simp only [hl2] at hlk; injection hlk with hlk; subst hlk
-        rw [useName_ext hext (hc _ _ _ hl2).1]; exact hg.cache_name _ _ _ hl2
-      | none =>
-        simp only [hl2] at hlk
-        split at hlk
-        · rename_i hn; injection hlk with hlk; injection hlk with e1 e2; subst e2
-          rw [useName_ext hext hr]; exact hn
-        · cases hlk
-    · -- CacheWF
-      intro n t' r'' hlk
-      simp only [lookup_append, h7] at hlk
-      cases hl2 : lookup st.useCache n with
-      | some x =>
-        simp only [hl2] at hlk; injection hlk with hlk; subst hlk
-        exact ⟨WF_ext hext (hc _ _ _ hl2).1, by have := (hc _ _ _ hl2).2; show t' < st1.next; omega⟩
-      | none =>
-        simp only [hl2] at hlk
-        split at hlk
-        · injection hlk with hlk; injection hlk with e1 e2; subst e1; subst e2
-          exact ⟨WF_ext hext hr, by show st.next < st1.next; omega⟩
-        · cases hlk
-    · intro t' ht'; injection ht' with ht'; subst ht'
-      refine ⟨r, h4, rfl, ?_, by show st.next < st1.next; omega⟩
-      simp only [lookup_append, h7, hl, if_true]
+    refine ⟨⟨hnames1, hbeh1, ?_, ?_⟩, ⟨by simp [h2], h5, h6, ⟨[(useName st r, st.next, r)], by simp [h7]⟩⟩, st.next, rfl, h4, ?_, by simp [h2]⟩
+    · intro e he
+      simp only [h7, List.mem_append, List.mem_singleton] at he
+      rcases he with he | rfl
+      · show lookup st1.behaviour e.2.1 = _
+        rw [h6 _ (hg.cache_lt e he)]; exact hg.cache_beh e he
+      · exact h4
+    · intro e he
+      simp only [h7, List.mem_append, List.mem_singleton] at he
+      rcases he with he | rfl
+      · have := hg.cache_lt e he; show e.2.1 < st1.next; omega
+      · show st.next < st1.next; omega
+    · -- the new entry is the first one matching
+      simp only [findUse, h7, List.find?_append]
+      have hnone : st.useCache.find? (fun e => decide (e.1 = useName st r) && decide (e.2.2 = r)) = none := by
+        simp only [findUse, Option.map_eq_none_iff] at hl; exact hl
+      simp [hnone]
 
 /-- **A task obtained from an argument-injection wrapper runs that wrapper's function on the results of that
-wrapper's injected tasks and keys**: the behaviour recorded for the returned task has the signature of the request. -/
-theorem task_runs_its_own_request {st : St} (hg : Good st) (hc : CacheWF st) (r : UseReq) (hr : r.WF st) (t : Nat)
-    (h : (getTask .fixed st r).1 = .ok t) :
-    ∃ r', lookup (getTask .fixed st r).2.behaviour t = some (.use r') ∧
-      r.sig (getTask .fixed st r).2 = r'.sig (getTask .fixed st r).2 := by
-  obtain ⟨_, _, _, h4⟩ := getTask_spec hg hc r hr
-  obtain ⟨r', h1, h2, _⟩ := h4 t h
-  exact ⟨r', h1, h2⟩
+wrapper's injected tasks and keys**: the behaviour recorded for the returned task is the request itself. -/
+theorem task_runs_its_own_request {st : St} (hg : Good st) (r : UseReq) :
+    ∃ t, (getTask .fixed st r).1 = .ok t ∧ lookup (getTask .fixed st r).2.behaviour t = some (.use r) := by
+  obtain ⟨_, _, t, h1, h2, _⟩ := getTask_spec hg r
+  exact ⟨t, h1, h2⟩
 
 /-- **Identical requests get the same task**, whatever was created in between (`st2` is any later state). -/
-theorem same_request_same_task {st st2 : St} (hg : Good st) (hc : CacheWF st) (r : UseReq) (hr : r.WF st) (t : Nat)
-    (h : (getTask .fixed st r).1 = .ok t)
-    (hg2 : Good st2) (hext : Ext (getTask .fixed st r).2 st2) :
+theorem same_request_same_task {st st2 : St} (hg : Good st) (r : UseReq) (hr : r.WF st) (t : Nat)
+    (h : (getTask .fixed st r).1 = .ok t) (hext : Ext (getTask .fixed st r).2 st2) :
     (getTask .fixed st2 r).1 = .ok t := by
-  obtain ⟨_, _, he, h4⟩ := getTask_spec hg hc r hr
-  obtain ⟨r', hb, hs, hl, hlt⟩ := h4 t h
+  obtain ⟨_, he, t', h1, _, hf, _⟩ := getTask_spec hg r
+  rw [h1] at h; injection h with h; subst h
   have hname : useName st2 r = useName st r := useName_ext (he.trans hext) hr
-  have hl2 := hext.cache _ _ hl
-  simp only [getTask, hname, hl2]
-  have hrw : r'.WF (getTask .fixed st r).2 := by
-    obtain ⟨_, hc', _, _⟩ := getTask_spec hg hc r hr
-    exact (hc' _ _ _ hl).1
-  have : sameSig st2 r r' = true := by
-    rw [sameSig_iff, sig_ext hext (WF_ext he hr), sig_ext hext hrw]; exact hs
-  simp [this]
+  obtain ⟨l, hl⟩ := hext.cache
+  have := findUse_append (l := l) hf
+  rw [← hl] at this
+  simp only [getTask, hname, this]
 
-/-- **Two requests that get the same task have the same signature**: requests that differ in function, injected
-task (name), key, kind of dependency or serialization never silently share a task — the second one gets a task
-of its own or `ValueError`. -/
-theorem different_request_not_shared {st st2 : St} (hg : Good st) (hc : CacheWF st) (r1 : UseReq) (hr1 : r1.WF st)
-    (t : Nat) (h1 : (getTask .fixed st r1).1 = .ok t)
-    (hg2 : Good st2) (hc2 : CacheWF st2) (hext : Ext (getTask .fixed st r1).2 st2)
-    (r2 : UseReq) (hr2 : r2.WF st2) (h2 : (getTask .fixed st2 r2).1 = .ok t) :
-    r1.sig (getTask .fixed st2 r2).2 = r2.sig (getTask .fixed st2 r2).2 := by
-  obtain ⟨_, hc1', he1, h41⟩ := getTask_spec hg hc r1 hr1
-  obtain ⟨r1', hb1, hs1, hl1, hlt1⟩ := h41 t h1
-  obtain ⟨_, _, he2, h42⟩ := getTask_spec hg2 hc2 r2 hr2
-  obtain ⟨r2', hb2, hs2, _, _⟩ := h42 t h2
-  -- the behaviour of `t` never changed
-  have hb1' : lookup (getTask .fixed st2 r2).2.behaviour t = some (.use r1') := by
-    rw [(hext.trans he2).beh t hlt1]; exact hb1
-  rw [hb1'] at hb2; injection hb2 with hb2; injection hb2 with hb2; subst hb2
-  have hw1 : r1.WF (getTask .fixed st r1).2 := WF_ext he1 hr1
-  have hw1' : r1'.WF (getTask .fixed st r1).2 := (hc1' _ _ _ hl1).1
-  rw [sig_ext (hext.trans he2) hw1, hs1, ← sig_ext (hext.trans he2) hw1', hs2]
+/-- **Two requests that get the same task are the same request**: requests that differ in function, injected task,
+key, kind of dependency or serialization never share a task — the second one gets a task of its own. -/
+theorem different_request_not_shared {st st2 : St} (hg : Good st) (r1 : UseReq) (t : Nat)
+    (h1 : (getTask .fixed st r1).1 = .ok t)
+    (hg2 : Good st2) (hext : Ext (getTask .fixed st r1).2 st2)
+    (r2 : UseReq) (h2 : (getTask .fixed st2 r2).1 = .ok t) : r1 = r2 := by
+  obtain ⟨_, _, t1, e1, hb1, _, hlt1⟩ := getTask_spec hg r1
+  obtain ⟨_, he2, t2, e2, hb2, _, _⟩ := getTask_spec hg2 r2
+  rw [e1] at h1; injection h1 with h1; subst h1
+  rw [e2] at h2; injection h2 with h2; subst h2
+  -- the behaviour of the task never changed
+  have : lookup (getTask .fixed st2 r2).2.behaviour t2 = some (.use r1) := by
+    rw [(hext.trans he2).beh t2 hlt1]; exact hb1
+  rw [this] at hb2; injection hb2 with hb2; injection hb2
 
-/-! ### the hypotheses `Good`/`CacheWF` hold in every reachable state -/
+/-! ### the hypothesis `Good` holds in every reachable state -/
 
-theorem newTask_good {st : St} (hg : Good st) (hc : CacheWF st) (name : String) (b : Behaviour) :
-    Good (st.newTask name b).2 ∧ CacheWF (st.newTask name b).2 ∧ Ext st (st.newTask name b).2 := by
+theorem newTask_good {st : St} (hg : Good st) (name : String) (b : Behaviour) :
+    Good (st.newTask name b).2 ∧ Ext st (st.newTask name b).2 := by
   obtain ⟨h1, h2, h3, h4, h5, h6, h7, h8⟩ := newTask_spec hg name b
-  have hext : Ext st (st.newTask name b).2 := ⟨by rw [h2]; omega, h5, h6, fun n x hx => by rw [h7]; exact hx⟩
-  refine ⟨⟨?_, ?_, ?_, ?_⟩, ?_, hext⟩
+  refine ⟨⟨?_, ?_, ?_, ?_⟩, ⟨by rw [h2]; omega, h5, h6, ⟨[], by simp [h7]⟩⟩⟩
   · intro p hp
     simp only [St.newTask, List.mem_append, List.mem_singleton] at hp ⊢
     rcases hp with hp | hp
@@ -209,17 +147,14 @@ theorem newTask_good {st : St} (hg : Good st) (hc : CacheWF st) (name : String) 
     rcases hp with hp | hp
     · have := hg.beh_lt p hp; omega
     · rw [hp]; simp
-  · intro n t r hl
-    rw [h7] at hl
-    rw [h6 t (hc _ _ _ hl).2]; exact hg.cache_beh _ _ _ hl
-  · intro n t r hl
-    rw [h7] at hl
-    rw [useName_ext hext (hc _ _ _ hl).1]; exact hg.cache_name _ _ _ hl
-  · intro n t r hl
-    rw [h7] at hl
-    exact ⟨WF_ext hext (hc _ _ _ hl).1, by rw [h2]; have := (hc _ _ _ hl).2; omega⟩
+  · intro e he
+    rw [h7] at he
+    rw [h6 _ (hg.cache_lt e he)]; exact hg.cache_beh e he
+  · intro e he
+    rw [h7] at he
+    rw [h2]; have := hg.cache_lt e he; omega
 
-/-- the calls of a history (requests are those the caller can form: they mention existing tasks only) -/
+/-- the calls of a history -/
 inductive Op where
   | base (name : String)
   | use (r : UseReq)
@@ -228,55 +163,42 @@ inductive Op where
 
 def stepOp (st : St) : Op → St
   | .base name => (st.newTask name .base).2
-  | .use r => if r.tasks.all (· < st.next) then (getTask .fixed st r).2 else st
+  | .use r => (getTask .fixed st r).2
   | .factory name d => (newFactory st name d).2
   | .make f r => (make .fixed st f r).2
 
-theorem good_factories {st : St} (hg : Good st) (hc : CacheWF st) (fs : List Factory) :
-    Good { st with factories := fs } ∧ CacheWF { st with factories := fs } :=
-  ⟨⟨hg.names_lt, hg.beh_lt, hg.cache_beh, hg.cache_name⟩, hc⟩
+theorem good_factories {st : St} (hg : Good st) (fs : List Factory) : Good { st with factories := fs } :=
+  ⟨hg.names_lt, hg.beh_lt, hg.cache_beh, hg.cache_lt⟩
 
-/-- **Every reachable state satisfies the hypotheses of the theorems above.** -/
-theorem history_good (ops : List Op) : Good (ops.foldl stepOp St.init) ∧ CacheWF (ops.foldl stepOp St.init) := by
-  suffices ∀ st, Good st ∧ CacheWF st → Good (ops.foldl stepOp st) ∧ CacheWF (ops.foldl stepOp st) from
-    this _ ⟨Good.init, by intro n t r h; simp [St.init, lookup] at h⟩
+/-- **Every reachable state satisfies the hypothesis of the theorems above.** -/
+theorem history_good (ops : List Op) : Good (ops.foldl stepOp St.init) := by
+  suffices ∀ st, Good st → Good (ops.foldl stepOp st) from this _ Good.init
   induction ops with
   | nil => intro st h; exact h
   | cons op ops ih =>
-    intro st ⟨hg, hc⟩
+    intro st hg
     simp only [List.foldl_cons]
     apply ih
     cases op with
-    | base name => exact ⟨(newTask_good hg hc name .base).1, (newTask_good hg hc name .base).2.1⟩
-    | use r =>
-      simp only [stepOp]
-      split
-      · rename_i hall
-        have hr : r.WF st := by intro t ht; simpa using (List.all_eq_true.1 hall) t ht
-        obtain ⟨h1, h2, _, _⟩ := getTask_spec hg hc r hr
-        exact ⟨h1, h2⟩
-      · exact ⟨hg, hc⟩
-    | factory name d => exact good_factories hg hc _
+    | base name => exact (newTask_good hg name .base).1
+    | use r => exact (getTask_spec hg r).1
+    | factory name d => exact good_factories hg _
     | make f r =>
       simp only [stepOp, make]
       cases st.factories[f]? with
-      | none => exact ⟨hg, hc⟩
+      | none => exact hg
       | some fac =>
         simp only [makeIn]
         split
-        · split
-          · exact ⟨hg, hc⟩
-          · exact ⟨hg, hc⟩
-        · obtain ⟨g1, g2, _⟩ := newTask_good hg hc (runTaskName { r with kwargs := mergeKw fac.defaults r.kwargs } fac.name)
-            (.run f { r with kwargs := mergeKw fac.defaults r.kwargs })
-          exact good_factories g1 g2 _
+        · exact hg
+        · exact good_factories (newTask_good hg _ _).1 _
 
 /-! ### run-task factories -/
 
 /-- one call of `RunTaskFactory.make`: the behaviour recorded for the returned task is the requested command
 line (extra arguments, keywords over the factory defaults, subprocess arguments) with the requested dependencies -/
 theorem make_runs_its_own_request (st : St) (f : Nat) (r : MakeReq) (fac : Factory) (hf : st.factories[f]? = some fac)
-    (hcache : ∀ k t r', lookup fac.cache k = some (t, r') → lookup st.behaviour t = some (.run f r'))
+    (hcache : ∀ k t r', (k, t, r') ∈ fac.cache → lookup st.behaviour t = some (.run f r'))
     (hg : Good st) (t : Nat) (h : (make .fixed st f r).1 = .ok t) :
     ∃ r', lookup (make .fixed st f r).2.behaviour t = some (.run f r') ∧
       r'.extraArgs = r.extraArgs ∧ r'.kwargs = mergeKw fac.defaults r.kwargs ∧
@@ -289,18 +211,20 @@ theorem make_runs_its_own_request (st : St) (f : Nat) (r : MakeReq) (fac : Facto
   have e4 : r2.deps = r.deps := by rw [← hr2]
   have e5 : r2.softDeps = r.softDeps := by rw [← hr2]
   unfold makeIn at h ⊢
-  cases hl : lookup fac.cache (fkey r2) with
-  | some x =>
-    obtain ⟨t', r'⟩ := x
+  simp only [] at h ⊢
+  cases hl : findRun fac.cache (fkey r2) r2 with
+  | some t' =>
     rw [hl] at h
     simp only [] at h ⊢
-    by_cases hc : r2.extraArgs = r'.extraArgs ∧ r2.kwargs = r'.kwargs ∧
-        r2.subprocessArgs = r'.subprocessArgs ∧ r2.deps = r'.deps ∧ r2.softDeps = r'.softDeps
-    · rw [if_pos hc] at h ⊢
-      injection h with h; subst h
-      obtain ⟨c1, c2, c3, c4, c5⟩ := hc
-      exact ⟨r', hcache _ _ _ hl, by rw [← c1, e1], by rw [← c2, e2], by rw [← c3, e3], by rw [← c4, e4], by rw [← c5, e5]⟩
-    · rw [if_neg hc] at h; cases h
+    injection h with h; subst h
+    simp only [findRun, Option.map_eq_some_iff] at hl
+    obtain ⟨e, he, rfl⟩ := hl
+    have hm := List.mem_of_find?_eq_some he
+    have hp := List.find?_some he
+    simp only [Bool.and_eq_true, decide_eq_true_eq] at hp
+    obtain ⟨k, t', r'⟩ := e
+    simp only at hp; obtain ⟨rfl, rfl⟩ := hp
+    exact ⟨r', hcache _ _ _ hm, e1, e2, e3, e4, e5⟩
   | none =>
     rw [hl] at h
     simp only [] at h ⊢
@@ -472,12 +396,12 @@ def lam2 : Func := ⟨2, "<lambda>"⟩
 def stBase : St := (St.init.newTask "t" .base).2
 
 /-- two different lambdas on the same task: the pinned cache silently hands the first task to the second request;
-the repaired one answers `ValueError` -/
+the repaired one gives the second request a task of its own and still reuses the first for an identical request -/
 theorem c15_pinned_refuted :
     (getTask .pinned (getTask .pinned stBase ⟨lam1, [(0, some "result")], [], .hard, false⟩).2
         ⟨lam2, [(0, some "result")], [], .hard, false⟩).1 = .ok 1 ∧
     (getTask .fixed (getTask .fixed stBase ⟨lam1, [(0, some "result")], [], .hard, false⟩).2
-        ⟨lam2, [(0, some "result")], [], .hard, false⟩).1 = .valueError ∧
+        ⟨lam2, [(0, some "result")], [], .hard, false⟩).1 = .ok 2 ∧
     (getTask .fixed (getTask .fixed stBase ⟨lam1, [(0, some "result")], [], .hard, false⟩).2
         ⟨lam1, [(0, some "result")], [], .hard, false⟩).1 = .ok 1 := by
   decide
